@@ -7,7 +7,7 @@ import struct
 from sa.astx import call_name, src
 from sa.selftest import Mutant, Silent
 from sa.source import AnalysisError
-from sa.props._lib_i import sect, COMPAT, BlockRaised, Raised, eval_block, interp, module_env, peval
+from sa.props._lib_i import sect, COMPAT, BlockRaised, Raised, class_env, eval_block, interp, module_env, peval
 
 PROPERTY = "C44"
 BANANA = "spread/banana.py"
@@ -104,7 +104,9 @@ def check(ctx):
         for st in mod.tree.body:
             if isinstance(st, ast.Expr) and isinstance(st.value, ast.Call) and call_name(st.value) == "setPrefixLimit" and st.value.args:
                 default_limit = peval(st.value.args[0], env0)
-        ctx.need(isinstance(default_limit, int), "module-level setPrefixLimit(<int>)")
+        if default_limit is None and isinstance(env0.get("_PREFIX_LIMIT"), int):
+            default_limit = env0["_PREFIX_LIMIT"]
+        ctx.need(isinstance(default_limit, int), "module-level default prefix limit")
 
         def limits(L):
             e = dict(env0)
@@ -161,8 +163,9 @@ def check(ctx):
                 enc(_Self(), obj, out.append)
             except Raised as ex:
                 return None, _exc_name(str(ex.exc))
-            except BlockRaised as ex:
-                return None, type(ex.exc).__name__
+            except BlockRaised as ex:       # raised inside a nested (recursive) _encode call, or by a modelled helper
+                inner = str(ex.exc)
+                return None, (_exc_name(inner) if isinstance(ex.exc, RuntimeError) and inner.startswith("raise ") else type(ex.exc).__name__)
             return b"".join(out), None
 
         POS, NEGT = {tags["INT"], tags["LONGINT"]}, {tags["NEG"], tags["LONGNEG"]}
@@ -197,12 +200,24 @@ def check(ctx):
             wire, err = encode(obj)
             ctx.check(err is None and wire == want, "encode/forms", f"{q} | {kind} {obj!r}"[:120],
                       f"_encode({obj!r}) produces {(wire if err is None else err)!r}; the wire format is {want!r}")
-        wire, err = encode(b"x" * (size_limit + 1))
-        ctx.check(err == "BananaError", "encode/size-limit-refused", q + " | byte string longer than SIZE_LIMIT", "an oversized byte string is encoded instead of refused (the decoder will drop the connection)")
-        wire, err = encode(b"x" * size_limit)
-        ctx.check(err is None, "encode/size-limit-refused", q + " | byte string of exactly SIZE_LIMIT", f"a byte string of exactly SIZE_LIMIT bytes is refused ({err}); the decoder accepts it")
-        wire, err = encode([0] * 0 + [None] * 0 + list(range(0)) + [b""] * (size_limit + 1))
-        ctx.check(err == "BananaError", "encode/size-limit-refused", q + " | list longer than SIZE_LIMIT", "an oversized list is encoded instead of refused")
+        for dialect in (b"none", b"pb"):          # every limit and form holds with and without the pb vocabulary
+            dn = dialect.decode()
+            wire, err = encode(b"x" * (size_limit + 1), dialect)
+            ctx.check(err == "BananaError", "encode/size-limit-refused", q + f" | byte string longer than SIZE_LIMIT, dialect {dn}",
+                      f"in the {dn} dialect an oversized byte string is encoded instead of refused (the peer's decoder will drop the connection)")
+            wire, err = encode([1, [b"x" * (size_limit + 1)]], dialect)
+            ctx.check(err == "BananaError", "encode/size-limit-refused", q + f" | nested byte string longer than SIZE_LIMIT, dialect {dn}",
+                      f"in the {dn} dialect an oversized byte string inside a list is encoded instead of refused")
+            wire, err = encode(b"x" * size_limit, dialect)
+            ctx.check(err is None, "encode/size-limit-refused", q + f" | byte string of exactly SIZE_LIMIT, dialect {dn}", f"a byte string of exactly SIZE_LIMIT bytes is refused ({err}); the decoder accepts it")
+            wire, err = encode([b""] * (size_limit + 1), dialect)
+            ctx.check(err == "BananaError", "encode/size-limit-refused", q + f" | list longer than SIZE_LIMIT, dialect {dn}", "an oversized list is encoded instead of refused")
+            for n, side in ((2 ** (7 * L), "above"), (-(2 ** (7 * L)), "below")):
+                wire, err = encode(n, dialect)
+                ctx.check(err == "BananaError", "encode/int-limit-refused", f"{q} | first integer {side} the limit, dialect {dn}", f"in the {dn} dialect an out-of-range integer is not refused")
+            wire, err = encode([b"abc", 7, -1.5, [b"not-a-word"]], dialect)
+            want = b"\x04" + tags["LIST"] + b"\x03" + tags["STRING"] + b"abc" + b"\x07" + tags["INT"] + tags["FLOAT"] + struct.pack("!d", -1.5) + b"\x01" + tags["LIST"] + b"\x0a" + tags["STRING"] + b"not-a-word"
+            ctx.check(err is None and wire == want, "encode/forms", q + f" | mixed list, dialect {dn}", f"in the {dn} dialect a list of non-vocabulary values is sent as {(wire if err is None else err)!r}; the wire format is {want!r}")
         wire, err = encode(None)
         ctx.check(err == "BananaError", "encode/unsupported-refused", q + " | unsupported type", f"an unsupported value is not refused with BananaError ({(wire if err is None else err)!r})")
         wire, err = encode(b"None", b"pb")
@@ -222,12 +237,14 @@ def check(ctx):
     # ---- decoder: one iteration of the scanning loop ------------------------------------------------------------------------------
     with sect(ctx, 'decoder: one iteration of the scanning loop'):
         q = base + "Banana.dataReceived"
-        loops = [st for st in f_d.body if isinstance(st, ast.While)]
-        ctx.need(len(loops) == 1, "the scanning loop of dataReceived")
+        allw = [x for x in ast.walk(f_d) if isinstance(x, ast.While)]
+        loops = [x for x in allw if not any(x is not y and any(z is x for z in ast.walk(y)) for y in allw)]        # outermost loops
+        ctx.need(len(loops) >= 1, "the scanning loop of dataReceived")
         loop = loops[0]
-        pre = f_d.body[:f_d.body.index(loop)]
-        post = f_d.body[f_d.body.index(loop) + 1:]
+        container = next(st for st in f_d.body if any(z is loop for z in ast.walk(st)))
+        pre = f_d.body[:f_d.body.index(container)]
         chunk_p = f_d.args.args[1].arg
+        cenv = class_env([cls], env0, funcs)           # class-level constants (vocabularies, precompiled structs ...) as self.<name>
         f_gi = ctx.func(BANANA, "Banana.gotItem")
 
         def step(buffer, stack=None, dialect=b"none", limit=L):
@@ -235,17 +252,18 @@ def check(ctx):
             delivered = []
             ge = {"self.listStack": stack, "self.callExpressionReceived": delivered.append}
             gi = interp(f_gi, funcs, ge)
-            e = dict(env0)
+            e = dict(cenv)
             e.update({"self": _Self(), "self.buffer": b"", "self.listStack": stack, "self.gotItem": lambda item: gi(_Self(), item), "self.prefixLimit": limit,
                       "self.incomingVocabulary": dict(in_v), "self.currentDialect": dialect, chunk_p: buffer})
             try:
                 eval_block(pre, e, funcs=funcs)
-                if e.get("buffer") != buffer:
+                bufvars = [k for k, v in e.items() if k not in cenv and k != chunk_p and not k.startswith("self") and isinstance(v, bytes) and v == buffer]
+                if len(bufvars) != 1:
                     raise AnalysisError(f"{q}: statements before the loop do not bind the working buffer")
                 r = eval_block(loop.body, e, funcs=funcs)
             except BlockRaised as ex:
                 return {"raised": type(ex.exc).__name__}
-            return {"buffer": e["buffer"], "stack": stack, "delivered": delivered, "returned": r.returned, "raised": _exc_name(r.raised), "saved": e["self.buffer"]}
+            return {"buffer": e[bufvars[0]], "stack": stack, "delivered": delivered, "returned": r.returned, "raised": _exc_name(r.raised), "saved": e["self.buffer"]}
 
         def want_step(case, buffer, expect, why="", **kw):
             got = step(buffer, **kw)
@@ -305,13 +323,54 @@ def check(ctx):
             want_step("prefix of limit digits with type byte: accepted", ones + tags["LONGINT"], {**done, "buffer": b""}, limit=lim_)
             want_step("prefix longer than limit with type byte: refused", ones + b"\x01" + tags["LONGINT"], {"raised": "BananaError", "delivered": []}, limit=lim_,
                       why="the prefix limit must also hold when prefix and type byte arrive together")
-        # leftover handling around the loop
-        e = {**env0, "self.buffer": b"ab", chunk_p: b"cd", "self.listStack": [], "self.gotItem": lambda i: None}
+        # leftover handling + every segmentation of reference streams, the whole of dataReceived evaluated chunk after chunk
+        e = {**cenv, "self": _Self(), "self.buffer": b"ab", chunk_p: b"cd", "self.listStack": [], "self.gotItem": lambda i: None, "self.prefixLimit": L}
         eval_block(pre, e, funcs=funcs)
-        ctx.check(e.get("buffer") == b"abcd", "decode/leftover-prepended", q + " | saved bytes + new chunk", f"the working buffer is {e.get('buffer')!r} for saved b'ab' and chunk b'cd'")
-        e = {**env0, "self.buffer": b"ab", "buffer": b""}
-        eval_block(post, e, funcs=funcs)
-        ctx.check(e.get("self.buffer") == b"", "decode/leftover-prepended", q + " | saved bytes cleared when all consumed", "fully consumed data stays in self.buffer and is decoded again with the next chunk")
+        ctx.check(any(isinstance(v, bytes) and v == b"abcd" for k, v in e.items() if not k.startswith("self") and k != chunk_p), "decode/leftover-prepended",
+                  q + " | saved bytes + new chunk", "the working buffer for saved b'ab' and chunk b'cd' is not b'abcd': bytes kept from the previous chunk are lost")
+
+        def ref_encode(x):
+            if isinstance(x, (list, tuple)):
+                return ref_b128(len(x)) + tags["LIST"] + b"".join(ref_encode(y) for y in x)
+            if isinstance(x, float):
+                return tags["FLOAT"] + struct.pack("!d", x)
+            if isinstance(x, bytes):
+                return ref_b128(len(x)) + tags["STRING"] + x
+            if x < 0:
+                return ref_b128(-x) + (tags["NEG"] if x >= -(2**31) else tags["LONGNEG"])
+            return ref_b128(x) + (tags["INT"] if x < 2**31 else tags["LONGINT"])
+
+        def feed(chunks):
+            stack, delivered = [], []
+            gi = interp(f_gi, funcs, {"self.listStack": stack, "self.callExpressionReceived": delivered.append})
+            env = dict(cenv)
+            env.update({"self": _Self(), "self.buffer": b"", "self.listStack": stack, "self.gotItem": lambda item: gi(_Self(), item), "self.prefixLimit": L,
+                        "self.incomingVocabulary": dict(in_v), "self.currentDialect": b"none"})
+            for c in chunks:
+                env[chunk_p] = c
+                try:
+                    r = eval_block(f_d.body, env, funcs=funcs)
+                except BlockRaised as ex:
+                    return f"raises {type(ex.exc).__name__}"
+                if r.raised:
+                    return r.raised
+            return delivered
+        objs = [[1, [b"ab", -2.5, []], 2**40, b""], [[[-(2**31) - 1]], b"x" * 130, 0.0], [b"\x80\x81\x82", [b"", [b"\x00"]], 127, 128]]
+        bad = None
+        n = 0
+        for obj in objs:
+            stream = ref_encode(obj)
+            cuts = [(stream,)] + [(stream[:i], stream[i:]) for i in range(1, len(stream))] + [tuple(stream[i:i + 1] for i in range(len(stream)))]
+            for cut in cuts:
+                got = feed(cut)
+                n += 1
+                if got != [obj]:
+                    bad = (obj, [len(c) for c in cut][:6], got)
+                    break
+            if bad:
+                break
+        ctx.check(bad is None, "decode/segmentation-independent", q + " | reference streams, every 2-way split and byte by byte",
+                  bad and f"the reference encoding of {bad[0]!r} delivered in chunks of sizes {bad[1]}... yields {bad[2]!r} instead of the expression itself", detail=f"{n} segmentations")
 
 
 _NEGD = "            elif typebyte == NEG:\n                buffer = rest\n                num = -b1282int(num)\n"
@@ -330,8 +389,14 @@ MUTANTS = [
     Mutant("int2b128-keeps-high-bit", BANANA, "        stream(bytes((integer & 0x7F,)))\n", "        stream(bytes((integer & 0xFF,)))\n", expect_rule="radix/int2b128"),
     Mutant("incoming-vocabulary-not-inverted", BANANA, "        incomingVocabulary[v] = k\n", "        incomingVocabulary[k] = v\n", expect_rule="vocab/tables-inverse"),
     Mutant("vocab-sent-in-any-dialect", BANANA, '            if self.currentDialect == b"pb" and obj in self.outgoingSymbols:\n', "            if obj in self.outgoingSymbols:\n", expect_rule="encode/vocab"),
+    Mutant("string-limit-skipped-with-vocabulary", BANANA, '            if self.currentDialect == b"pb" and obj in self.outgoingSymbols:\n                symbolID = self.outgoingSymbols[obj]\n                int2b128(symbolID, write)\n                write(VOCAB)\n            else:\n                if len(obj) > SIZE_LIMIT:\n                    raise BananaError(\n                        "byte string is too long to send (%d)" % (len(obj),)\n                    )\n',
+           '            word = self.outgoingSymbols.get(obj) if self.currentDialect == b"pb" else None\n            if word is None and self.currentDialect != b"pb" and len(obj) > SIZE_LIMIT:\n                raise BananaError("byte string is too long to send (%d)" % (len(obj),))\n            if word is not None:\n                int2b128(word, write)\n                write(VOCAB)\n            else:\n',
+           expect_rule="encode/size-limit-refused"),
     Mutant("list-size-limit-off", BANANA, "            if len(obj) > SIZE_LIMIT:\n                raise BananaError(\"list/tuple is too long to send (%d)\" % (len(obj),))\n", "", expect_rule="encode/size-limit-refused"),
-    Mutant("leftover-dropped", BANANA, "        buffer = self.buffer + chunk\n", "        buffer = chunk\n", expect_rule="decode/leftover-prepended"),
+    Mutant("leftover-dropped", BANANA, "        buffer = self.buffer + chunk\n", "        buffer = chunk\n", expect_rule="decode/"),
+    Mutant("float-via-little-endian-struct", BANANA, '                    gotItem(struct.unpack("!d", rest[:8])[0])\n', "                    gotItem(self._double.unpack(rest[:8])[0])\n",
+           more=[(BANANA, "    prefixLimit = None\n    sizeLimit = SIZE_LIMIT\n", "    prefixLimit = None\n    sizeLimit = SIZE_LIMIT\n    _double = struct.Struct(\"<d\")\n")], expect_rule="decode/"),
+    Mutant("saved-buffer-not-cleared", BANANA, '        self.buffer = b""\n\n    def expressionReceived', '        pass\n\n    def expressionReceived', expect_rule="decode/segmentation-independent"),
     Mutant("negative-int-boundary-sign", BANANA, "            elif obj < 0:\n                int2b128(-obj, write)\n                write(NEG)\n", "            elif obj < 0:\n                int2b128(-obj, write)\n                write(INT)\n",
            expect_rule="encode/int-forms"),
 ]
@@ -340,5 +405,10 @@ SILENT = [
            "            elif typebyte == INT or typebyte == LONGINT:\n"),
     Silent("int-boundary-rewritten", BANANA, "            elif obj <= self._largestInt:\n", "            elif not obj > self._largestInt:\n"),
     Silent("max-int-sent-as-longint", BANANA, "            elif obj <= self._largestInt:\n", "            elif obj < self._largestInt:\n"),
+    Silent("float-via-precompiled-struct", BANANA, '                    gotItem(struct.unpack("!d", rest[:8])[0])\n', "                    gotItem(self._double.unpack(rest[:8])[0])\n",
+           more=[(BANANA, "    prefixLimit = None\n    sizeLimit = SIZE_LIMIT\n", "    prefixLimit = None\n    sizeLimit = SIZE_LIMIT\n    _double = struct.Struct(\"!d\")\n")]),
+    Silent("working-buffer-renamed", BANANA, "        buffer = self.buffer + chunk\n", "        buffer = b\"\".join((self.buffer, chunk))\n"),
+    Silent("vocabulary-lookup-by-get", BANANA, '            if self.currentDialect == b"pb" and obj in self.outgoingSymbols:\n                symbolID = self.outgoingSymbols[obj]\n                int2b128(symbolID, write)\n                write(VOCAB)\n            else:\n',
+           '            symbolID = self.outgoingSymbols.get(obj) if self.currentDialect == b"pb" else None\n            if symbolID is not None:\n                int2b128(symbolID, write)\n                write(VOCAB)\n            else:\n'),
     Silent("b1282int-shift-form", BANANA, "        i += n * e\n        e <<= 7\n", "        i = i + (n * e)\n        e = e * 128\n"),
 ]
